@@ -328,6 +328,14 @@ theorem zipWithM'_ret {f : Val → Val → M Val} (hf : ∀ t g, BoolV t → Boo
     · exact hr
     · exact hrs v hv
 
+/-- the retagging step of a selection hands back what the constructor accepted -/
+theorem iteTag_ret (t f : Val) {ret : Val} (hret : BoolV ret) : RetV (iteTag t f ret) := by
+  unfold iteTag
+  split
+  · exact Ret.lcb (mkBool_ret _ _)
+  · exact Ret.raise
+  · exact Ret.pure hret
+
 theorem iteAux_ret (cond : LinComb) : ∀ (fuel : Nat) (t f : Val), BoolV t → BoolV f → RetV (iteAux cond fuel t f) := by
   intro fuel
   induction fuel with
@@ -341,9 +349,10 @@ theorem iteAux_ret (cond : LinComb) : ∀ (fuel : Nat) (t f : Val), BoolV t → 
       have generic : ∀ f' : Val, RetV (do
           let d ← subV t f'
           let prod ← mulLV cond d
-          addV f' prod) := by
+          let ret ← addV f' prod
+          iteTag t f' ret) := by
         intro f'
-        exact Ret.bind' (fun d => Ret.bind' (fun pr => addV_ret _ _))
+        exact Ret.bind' (fun d => Ret.bind' (fun pr => Ret.bind (addV_ret _ _) (fun ret hret => iteTag_ret _ _ hret)))
       cases t
       case list ts =>
         cases f
